@@ -47,6 +47,16 @@ Spellings that are one and the same obligation (round 4; C10_helpers):
   * R5 writers: a private helper only read_from_layer_dir reaches, which merely takes `&mut self.<field>`, is part of the reader
   * R5 writer/scopes: every file write is attributed to the fields of self its path / content are computed from, private
     helpers looked into (a plan computed from the delta, written later)
+Round 5 (C10_helpers, last section):
+  * the reader's result: a private non-generic body behind the public signature is transparent (reader_payload)
+  * the target delta: `d.insert(a).insert(b)` — a private call that hands back one of its own arguments denotes that argument
+    (same_object); a function pointer column of the row table (`("PATH", Self::layer_paths_build_mut, &bin)`, called per row)
+    is a call of the accessor it points to (target_fields on the row)
+  * values: element projections of literal arrays, `["bin", "lib"].map(|n| layer.join(n))[1]` = layer.join("lib") (resolve_values)
+  * R5 readers: `Self { all, build, ..old }` in the reader moves old.<field> into the same field of the new value
+    (carried_over_only: a carry-over, not a read; crosswise or into anything else it stays a read)
+  * R5 writers: an accessor that is only mentioned as a value (function pointer) inside the reader, which returns no
+    function pointer, is part of the reader (value_mentions); any direct caller / mention elsewhere is a foreign writer
 Not decided: what is_dir returns for each file-type assignment (kernel / std).
 """
 from . import layer_env_common as L
@@ -103,16 +113,20 @@ def run(ctx, rep):
     E2 = H.effects_with_natural_loops(prog, sl, {L.INSERT: ('INSERT', None)})
     ins = []
     leaks = []
-    ok_value = sl.mk_unwrap(sl.local(g, 0), 1)
+    # (the success payload of read_from_layer_dir; a private non-generic body behind the public signature is transparent)
+    ok_value, bodies = H.reader_payload(prog, sl, g)
     for e in E2.expand(g, 'may'):
         if e.kind != 'INSERT' or len(e.args) < 4:
             continue
-        tgt = strip(e.args[0])
+        # the delta the insert acts on: `d.insert(a).insert(b)` (a private insert handing back its receiver) acts on d twice,
+        # a call through a known function pointer is a call of the pointee
+        eargs = (H.same_object(prog, sl, e.args[0]),) + tuple(e.args[1:])
+        tgt = strip(eargs[0])
         fld = tgt[2] if tgt[0] == 'field' and tgt[2] in H.FIELDS else None
         levels = H.level_calls(e)
         if fld is None:
             # the delta a private helper creates, fills and returns, stored in an implicit-path field by the caller
-            fld = H.returned_into(prog, sl, g, ok_value, e.args[0], levels)
+            fld = H.returned_into(prog, sl, g, ok_value, eargs[0], levels, bodies=bodies)
         def outside_env_reader():
             # an insert into a delta that is being read from an env directory, not an implicit path — provided it does
             # happen inside the env directory reader: anything else read_from_layer_dir puts into an explicit delta
@@ -128,12 +142,13 @@ def run(ctx, rep):
                         break
             return L.R_DIR not in through
         # `env.implicit_delta_mut(&scope)`: which delta a private helper hands out may depend on the row: resolved per row
-        deferred = fld is None and H.is_helper_result(prog, e.args[0])
+        # (... or a function pointer column of the row table selects: `select(&mut env)` with `select` known per row)
+        deferred = fld is None and (H.is_helper_result(prog, eargs[0]) or H.is_pointer_call(eargs[0]))
         # `let target = if spec.launch { &mut env.layer_paths_launch } else { &mut env.layer_paths_build }`: which assignment
         # reaches the insert is decided by the branch decisions around the assignments, evaluated on the row
         alts_ = H.joined_alternatives(E2, e.call, 0, e.mapping) if fld is None and not deferred and tgt[0] == 'phi' else None
         deferred = deferred or bool(alts_)
-        if fld is None and not deferred and not any(x[0] == 'field' and x[2] in H.FIELDS for x in walk(e.args[0])):
+        if fld is None and not deferred and not any(x[0] == 'field' and x[2] in H.FIELDS for x in walk(eargs[0])):
             if outside_env_reader():
                 leaks.append(e)
             continue
@@ -160,7 +175,10 @@ def run(ctx, rep):
         # is not taken to run for a row whose scope is Scope::Launch)
         pviews = H.variant_views(gl)
         aviews = [c_ for _, cs_ in (alts_ or ()) for c_ in cs_]
-        for a, vs2, opq in H.unrolled(E2, e, tuple(e.args[:4]) + tuple(v_ for v_, _ in (alts_ or ())), views + pviews + aviews):
+        for a, vs2, opq in H.unrolled(E2, e, tuple(eargs[:4]) + tuple(v_ for v_, _ in (alts_ or ())), views + pviews + aviews):
+            # element projections of literal arrays (`let [bin, lib] = ["bin", "lib"].map(|n| layer.join(n))`) are the elements
+            a = tuple(H.resolve_values(sl, x_) for x_ in a)
+            vs2 = [(H.resolve_values(sl, v_), oc_) for v_, oc_ in vs2]
             if H.dead_row(prog, sl, vs2[len(views):len(views) + len(pviews)]):
                 continue
             avs = vs2[len(views) + len(pviews):len(views) + len(pviews) + len(aviews)]
@@ -175,7 +193,7 @@ def run(ctx, rep):
                         pos += len(cs_)
                     if len(live) == 1:
                         tv = live[0]
-                tf = H.target_fields(prog, sl, tv)
+                tf = H.target_fields(prog, sl, H.same_object(prog, sl, tv))
                 if tf is None or not (tf & set(H.FIELDS)):
                     if outside_env_reader() and e not in leaks:
                         leaks.append(e)
@@ -400,12 +418,22 @@ def run(ctx, rep):
             if path == L.R_LAYER:
                 return True
             f_ = prog.fns.get(path)
-            if f_ is None or depth > 4 or f_.vis == 'pub' or path not in from_reader:
+            if f_ is None or depth > 4 or f_.vis == 'pub':
                 return False
             if f_.kind == 'Closure' and f_.parent:
-                return only_from_reader(f_.parent, depth + 1)
+                return path in from_reader and only_from_reader(f_.parent, depth + 1)
             cs_ = [c for c in callers_w.get(path, []) if c.name == path]
-            return bool(cs_) and all(only_from_reader(c.fn.path, depth + 1) for c in cs_)
+            # ... or is selected through a function pointer (`("PATH", Self::layer_paths_build_mut, &bin)`: a column of the row
+            # table): every function that mentions it as a value is part of the reader and keeps the pointer to itself
+            # (nothing it returns is or contains a function pointer)
+            ms_ = H.value_mentions(prog, path)
+            if not (path in from_reader or ms_) or not (cs_ or ms_):
+                return False
+            for m_ in ms_:
+                fm_ = prog.fns.get(m_)
+                if fm_ is None or 'fn(' in str(fm_.ret) or not only_from_reader(m_, depth + 1):
+                    return False
+            return all(only_from_reader(c.fn.path, depth + 1) for c in cs_)
         hands_out = {fn.path for fn, bi, how in acc if how == 'refmut'} - {fn.path for fn, bi, how in acc if how in ('write', 'init')}
         foreign = [w_ for w_ in writers if w_ != L.R_LAYER and not (w_ in hands_out and only_from_reader(w_))]
         rep.check(bool(writers) and not foreign, 'R5', 'writers/' + fld, where, 'written only by read_from_layer_dir',
@@ -428,6 +456,11 @@ def run(ctx, rep):
                 return only_from_apply(parent, depth + 1)
             cs_ = [c for c in callers_.get(path, []) if c.name == path]
             return bool(cs_) and all(only_from_apply(c.fn.path, depth + 1) for c in cs_)
+        # (`Ok(Self { all, build, ..result_layer_env })` in the reader: a functional update moves the field of the old value into
+        # the same field of the new one — the content is carried over, not looked at; such a function is a writer ('init'))
+        carried = {r_ for r_ in readers if r_ not in from_writer and only_from_reader(r_) and r_ in writers
+                   and H.carried_over_only(prog, prog.fns[r_], fld, L.LE)}
+        readers = [r_ for r_ in readers if r_ not in carried]
         bad_readers = [r_ for r_ in readers if not only_from_apply(r_) or r_ in from_writer]
         rep.check(bool(readers) and not bad_readers, 'R5', 'readers/' + fld, where,
                   'read only by apply (and private helpers only apply reaches)', 'read by %s (the writer must never see it)' % (bad_readers or readers))
